@@ -415,7 +415,26 @@ func (p *c04) verbatim(rec *core.Recorder, r *core.Rand) {
 	if strings.Contains(body, "endverbatim") {
 		return
 	}
-	src := "A{% verbatim %}" + body + "{% endverbatim %}B{{ v0 }}C"
+	core04 := "A{% verbatim %}" + body + "{% endverbatim %}B"
+	src := core04 + "{{ v0 }}C"
+	srcs := map[string]string{}
+	// the block stands at the top level, or inside a construct that binds the very names its body mentions
+	switch wrap := r.Intn(7); wrap {
+	case 1:
+		src = "{% macro vb(secret, other) %}" + core04 + "{% endmacro %}{{ vb(secret, other) }}{{ v0 }}C"
+	case 2:
+		src = "{% if yes %}" + core04 + "{% endif %}{{ v0 }}C"
+	case 3:
+		src = "{% for secret in [secret] %}" + core04 + "{% endfor %}{{ v0 }}C"
+	case 4:
+		src = "{% block vbk %}" + core04 + "{% endblock %}{{ v0 }}C"
+	case 5:
+		srcs["vinc"] = core04
+		src = "{% include 'vinc' with {'secret': secret, 'other': other} %}{{ v0 }}C"
+	case 6:
+		srcs["vlib"] = "{% macro vb(secret, other) %}" + core04 + "{% endmacro %}"
+		src = "{% import 'vlib' as vl %}{{ vl.vb(secret, other) }}{{ v0 }}C"
+	}
 	rec.Eval("verbatim", src, true)
 	cs := map[string]any{"source": fmt.Sprintf("%q", src)}
 	var outs []string
@@ -424,7 +443,11 @@ func (p *c04) verbatim(rec *core.Recorder, r *core.Rand) {
 		ctx := c04Ctx()
 		ctx["secret"] = fmt.Sprintf("SECRET%dX", k)
 		ctx["other"] = fmt.Sprintf("OTHER%dX", k)
-		res := renderFresh(map[string]string{"main": src}, "main", ctx, spy.engine(nil))
+		all := map[string]string{"main": src}
+		for n, t := range srcs {
+			all[n] = t
+		}
+		res := renderFresh(all, "main", ctx, spy.engine(nil))
 		if res.Panicked {
 			rec.Violate("panic", "panic@"+res.Site, "engine panicked: "+res.PanicVal, cs, res.Stack)
 			return
